@@ -84,3 +84,35 @@ Example fold_beyond_2_53 :
   (* an overflowing constant expression is not folded by the model: the compiler rejects it *)
   cval (EArith Add (EInt 9223372036854775807) (EInt 1)) = None.
 Proof. vm_compute. split; reflexivity. Qed.
+
+(* the two ways the implementation evaluates `N of <set>` (range fast path
+   over consecutive ids, loop otherwise) agree for EVERY N - refuted for
+   N <= 0 before commits 2b4649c7 / bf5119e4 *)
+Lemma count_true_matched : forall ms,
+  count_true (map (fun m => VBool (matched m)) ms) = Z.of_nat (length (filter matched ms)).
+Proof.
+  intros ms. unfold count_true. f_equal. induction ms as [|m t IH]; [reflexivity|].
+  cbn [map filter truthy]. destruct (matched m); cbn [length]; rewrite IH; reflexivity.
+Qed.
+Lemma exists_matched : forall ms,
+  existsb truthy (map (fun m => VBool (matched m)) ms) = (0 <? Z.of_nat (length (filter matched ms))).
+Proof.
+  induction ms as [|m t IH]; [reflexivity|]. cbn [map existsb filter truthy].
+  destruct (matched m); cbn [orb length].
+  - symmetry. apply Z.ltb_lt. lia.
+  - exact IH.
+Qed.
+Theorem of_fast_path_equiv_loop : forall z ms,
+  v_of QExpr (VInt z) (map (fun m => VBool (matched m)) ms) = VBool (pat_range_match z ms).
+Proof.
+  intros z ms. unfold v_of, quantified, pat_range_match. cbn [max_count].
+  destruct (z =? 0) eqn:E0.
+  - apply Z.eqb_eq in E0. subst z. rewrite loop_expr_zero by auto. f_equal.
+    rewrite exists_matched. destruct (Z.of_nat (length (filter matched ms))) eqn:L; try reflexivity.
+    lia.
+  - apply Z.eqb_neq in E0. destruct (z <? 0) eqn:En.
+    + apply Z.ltb_lt in En. rewrite (loop_expr_neg QExpr z _ 0) by (auto; lia).
+      rewrite exists_matched. reflexivity.
+    + apply Z.ltb_ge in En. rewrite (loop_expr_pos QExpr z _ 0) by (auto; lia).
+      rewrite count_true_matched. reflexivity.
+Qed.
